@@ -192,3 +192,70 @@ func ZZ_C14_H2() {
 	zz.Assert("second-body-exact", bytes.Equal(got2, body))
 	zz.Assert("second-body-ends-with-eof", eof2)
 }
+
+// ZZ_C14_BIG: the 8 KiB regime: a fixed-length body longer than the prefetch limit (8 KiB), so
+// its tail is read from the wire by the handler, with read buffers larger and smaller than what
+// is left, followed by a pipelined sentinel.
+func ZZ_C14_BIG() {
+	l := 8192 + zz.Range("extra", 1, 9)
+	if zz.Choose("long", 2) == 1 {
+		l = 9000
+	}
+	body := make([]byte, l)
+	for i := range body {
+		body[i] = byte('a' + i%26)
+	}
+	sym := zz.Bytes("boundarybytes", 3)
+	body[0], body[8191], body[l-1] = sym[0], sym[1], sym[2]
+	wire := append([]byte("POST /b HTTP/1.1\r\nHost: h\r\nContent-Length: "), zzItoa(l)...)
+	wire = append(wire, "\r\n\r\n"...)
+	wire = append(wire, body...)
+	bodyEnd := len(wire)
+	wire = append(wire, zzSentinel...)
+	rsize := []int{16, 4096, 8192, 16384}[zz.Choose("rsize", 4)]
+	nreads := zz.Range("nreads", 0, 3)
+	frag := []int{0, 4096, 5000}[zz.Choose("frag", 3)]
+	nc := zz.NewNetConn(wire)
+	if frag > 0 {
+		nc.Frag = func(rem int) int { return frag }
+	}
+	var got []byte
+	eofEarly, readErr := false, false
+	calls := 0
+	consumedAtSecond := -1
+	core := zzNewCore(func(c context.Context, ctx *app.RequestContext) {
+		calls++
+		if calls == 1 {
+			r := ctx.RequestBodyStream()
+			for i := 0; i < nreads; i++ {
+				buf := make([]byte, rsize)
+				n, err := r.Read(buf)
+				got = append(got, buf[:n]...)
+				if err == io.EOF {
+					if len(got) != len(body) {
+						eofEarly = true
+					}
+					break
+				} else if err != nil {
+					readErr = true
+				}
+			}
+			return
+		}
+		consumedAtSecond = nc.Pos - ctx.GetConn().Len()
+	})
+	s := zzNewServer(core)
+	s.StreamRequestBody = true
+	s.IdleTimeout = 1
+	_ = s.Serve(context.Background(), standard.ZZNewConn(nc))
+	_ = bodyEnd
+	zz.Cover("reached-assert", true)
+	zz.Cover("read-beyond-prefetch", len(got) > 8192)
+	zz.Assert("no-read-error", !readErr)
+	zz.Assert("bytes-read-are-a-prefix-of-the-body", len(got) <= len(body) && bytes.Equal(got, body[:minInt(len(got), len(body))]))
+	zz.Assert("eof-only-at-end-of-body", !eofEarly)
+	zz.Assert("pipelined-request-still-handled", calls == 2)
+	if calls == 2 {
+		zz.Assert("next-request-parsed-from-first-byte-after-body", consumedAtSecond == len(wire))
+	}
+}
